@@ -64,6 +64,9 @@ class Graph:
             if e["a"] == "check":
                 ak = ("c", ".".join(e["n"]))
                 out = (tuple(sorted(e["q"])), bool(e["v"]))
+            elif e["a"] == "fail":
+                ak = ("f", ".".join(e["n"]))
+                out = (tuple(sorted(e["q"])), "err")
             elif e["a"] == "tick":
                 ak, out = ("t",), None
             else:
@@ -170,7 +173,8 @@ BLANK_N = {"l": [], "cut": 0, "opt": 0, "h": []}
 
 
 def line(a, **kw):
-    d = {"a": a, "t": 0, "db": [], "add": [], "del": [], "d": 0, "n": BLANK_N, "q": [], "v": False, "ok": True}
+    d = {"a": a, "t": 0, "db": [], "add": [], "del": [], "d": 0, "n": BLANK_N, "q": [], "v": False, "ok": True,
+         "f": False, "e": False}
     d.update(kw)
     return d
 
@@ -210,7 +214,8 @@ def walk_trace(universe, walks_in, by):
             elif st[0] == "d":
                 lines.append(line("db", add=[hid[st[1]]] if st[2] else [], **{"del": [] if st[2] else [hid[st[1]]]}))
             else:
-                lines.append(line("check", n=names[st[1]], q=r["q"], v=r["v"], ok=r["ok"]))
+                lines.append(line("check", n=names[st[1]], q=r["q"], v=r["v"], ok=r["ok"],
+                                  f=bool(r.get("f")), e=bool(r.get("e"))))
             where.append((w["w"], i))
     return lines, where
 
@@ -244,7 +249,7 @@ def to_walk_in(g, wid, walk):
         elif ak[0] == "t":
             steps.append(["t"])
         else:
-            steps.append(["c", ak[1]])
+            steps.append([ak[0], ak[1]])      # "c" = check, "f" = check while the service fails
     return {"w": wid, "db": start_db, "steps": steps}
 
 
@@ -285,7 +290,10 @@ def direction_a(ctx, cov, universe0):
                     kinds["asked_with_warm_cache"] += 1
             else:
                 kinds[ak[0]] += 1
-    for k in ("blocked", "clean", "asked", "not_asked", "blocked_from_cache", "asked_with_warm_cache", "t", "d"):
+                if ak[0] == "f" and any(v2[0] > 0 for v2 in g.states[u]["c"].values()):
+                    kinds["failed_with_warm_cache"] += 1
+    for k in ("blocked", "clean", "asked", "not_asked", "blocked_from_cache", "asked_with_warm_cache", "t", "d",
+              "f", "failed_with_warm_cache"):
         if not kinds[k]:
             raise vlib.Inconclusive("vacuous: no edge of kind %s" % k)
 
@@ -296,12 +304,17 @@ def direction_a(ctx, cov, universe0):
     def digest(bad, skipped, diag):
         # How far the real code followed the predicted choices: the coverage
         # of (state, action) pairs is counted on the real path only.
-        agree = deviate = proj_same = proj_diff = 0
+        agree = deviate = proj_same = proj_diff = failed = 0
         covered = set()
         for wi, w in enumerate(walks):
             for i, ((ak, out, u, v), r) in enumerate(zip(w["steps"], by[wi])):
-                if ak[0] == "c":
-                    if (tuple(sorted(r["q"])), bool(r["v"])) != out or not r["ok"]:
+                if ak[0] == "f":
+                    if tuple(sorted(r["q"])) != out[0] or not r.get("e") or not r["ok"]:
+                        deviate += 1
+                        break
+                    failed += 1
+                elif ak[0] == "c":
+                    if (tuple(sorted(r["q"])), bool(r["v"])) != out or not r["ok"] or r.get("e"):
                         deviate += 1
                         if deviate <= 3:
                             ctx.notes.append({"left_predicted_choice": {
@@ -332,8 +345,9 @@ def direction_a(ctx, cov, universe0):
                        "admissible": diag1.get(len(lines1), {}).get("admissible"),
                        "valid_entries": diag1.get(len(lines1), {}).get("valid"), "names": summ.get("names")}
                 ctx.disagreement(classify(rec), rec,
-                                 "Check(%s): question %s verdict %s ok=%s (%s) not admitted by the spec after %d steps"
-                                 % (obs.get("host"), obs["q"], obs["v"], obs["ok"], obs.get("why", ""), si))
+                                 "Check(%s)%s: question %s verdict %s error=%s ok=%s (%s) not admitted by the spec "
+                                 "after %d steps" % (obs.get("host"), " while the service fails" if obs.get("f") else "",
+                                                     obs["q"], obs["v"], obs.get("e"), obs["ok"], obs.get("why", ""), si))
             else:
                 ctx.notes.append("walk %d step %d rejected once, not reproduced in isolation" % (wid, si))
         cov.update({
@@ -341,6 +355,7 @@ def direction_a(ctx, cov, universe0):
             "a_pairs_covered_on_real_path": len(covered),
             "a_walks": len(walks), "a_steps": nsteps, "a_lines_rejected": len(bad), "a_lines_skipped": skipped,
             "a_rejected_reproduced": reproduced,
+            "a_failed_lookups_as_predicted": failed, "a_failed_lookups_served": summ.get("failed_lookups"),
             "a_checks_as_predicted": agree, "a_walks_leaving_prediction": deviate,
             "a_cache_projection_equal": proj_same, "a_cache_projection_different": proj_diff,
             "a_edge_kinds": dict(kinds), "a_hashes_tried_for_collisions": summ["hashes_tried"],
@@ -378,8 +393,10 @@ def direction_b(ctx, cov, pkg, test, tag, synctest, vacuous):
             "mixed_case": sum(1 for r in checks if r.get("host", "") != r.get("host", "").lower()),
             "labels": sorted({len(r["n"]["l"]) for r in checks}),
             "private_or_unlisted_suffix": sum(1 for r in checks if r["n"]["opt"] > 0),
+            "failed_lookups": sum(1 for r in checks if r.get("f") and r.get("e")),
+            "service_failing_but_answered_from_cache": sum(1 for r in checks if r.get("f") and not r.get("e")),
         }
-        for k in ("checks", "blocked", "answered_from_cache", "asked"):
+        for k in ("checks", "blocked", "answered_from_cache", "asked", "failed_lookups"):
             if not stats[k]:
                 vacuous.append("vacuous %s trace: no %s" % (tag, k))
         reproduced = 0
@@ -442,7 +459,7 @@ def run(ctx):
     for m in re.finditer(r"^<(\w+) line \d+, col \d+ to line \d+, col \d+ of module HashPrefix[^>]*>: (\d+):(\d+)$",
                          mc["out"], re.M):
         taken[m.group(1)] += int(m.group(3))
-    for act in ("Init", "Check", "Tick", "DbChange"):
+    for act in ("Init", "Check", "LookupFails", "Tick", "DbChange"):
         if not taken[act]:
             raise vlib.Inconclusive("vacuous: action %s never taken in %s" % (act, mc["cfg"]))
     cov = {"mc_states": mc["distinct"], "mc_transitions": mc["generated"], "mc_actions_taken": dict(taken)}
@@ -475,7 +492,7 @@ def run(ctx):
         keys.append(wid)
     bad_walks = {keys[bl - 1] for bl in bad}
     k = next((i for i, ln in enumerate(every)
-              if ln["a"] == "check" and ln["n"]["opt"] == 0 and keys[i] not in bad_walks), None)
+              if ln["a"] == "check" and not ln["f"] and ln["n"]["opt"] == 0 and keys[i] not in bad_walks), None)
     demo = None
     if k is not None:
         start = max(i for i in range(k + 1) if every[i]["a"] == "reset")
@@ -533,5 +550,5 @@ def replay(ctx, path):
     bad, _, diag = validate(ctx, lines, "replay")
     rejected = bool(bad) and bad[-1] == len(lines)
     print(json.dumps({"expected_one_of": diag.get(len(lines), {}).get("admissible") if rejected else "admissible",
-                      "observed": {k: last.get(k) for k in ("host", "q", "v", "ok", "why", "qn")}}, indent=1))
+                      "observed": {k: last.get(k) for k in ("host", "q", "v", "ok", "f", "e", "why", "qn")}}, indent=1))
     return 1 if rejected else 0
